@@ -770,14 +770,90 @@ def c13_streams(ctx):
               "watcher are compared with the model; bounded-exhaustive pairs of path-set changes over 2 paths x 2 modes x 2 kinds come first")
     return [s]
 
+def c13_reconf(ctx):
+    """changes made from inside handlers: a real Watchexec instance whose action / error handlers reconfigure it (path set, watcher kind,
+    the very handler that is running) from inside their own invocation, vs the handler-cell model Rc (Wx/Fs/Reconf.lean)"""
+    n = 900 if ctx["thorough"] else 150
+    r = random.Random(ctx["seed"] * 53 + 13)
+    s = core.StreamResult("handler-reconf")
+    d = core.WORK / ctx.get("pid13", "C13") / "handler-reconf"; d.mkdir(parents=True, exist_ok=True)
+    names = "abcd"
+    def pset(): return ",".join(sorted(x + r.choice("+-") for x in r.sample(names, r.randint(0, 3))))
+    cases = core.corpus("handler-reconf")
+    for i in range(n):
+        faulty = i % 3 == 2
+        ops = []
+        if faulty:
+            ops.append("bad:" + r.choice(names))
+            for _ in range(r.randint(0, 4)): ops.append("eh:" + r.choice(["E", "-", "E|E", "E"]))
+        for _ in range(r.randint(2, 6)):
+            k = r.random()
+            if k < 0.2: ops.append(f"set:{pset()}:{r.choice('NP')}")
+            elif faulty and k < 0.3: ops.append(r.choice(["bad:", "good:"]) + r.choice(names))
+            else:
+                alphabet = ["P" + pset(), "K" + r.choice("NP"), "A", "A", "T", "-"] + ([] if faulty else ["E", "E"])
+                ops.append("ev:" + "|".join(r.choice(alphabet) for _ in range(r.randint(1, 4))))
+        cases.append(f"h{i} {';'.join(ops)}")
+    impl, culprits, fatal = core.run_chunks("wxreconf", cases, 12, 900 if ctx["thorough"] else 300)
+    if fatal: s.error = fatal; return s
+    for c, why in culprits: s.oracle_failures.append((cases.index(c), c, "", f"Watchexec gave no answer while a handler was reconfiguring it: {why}"))
+    cases = [c for c in cases if c in impl]
+    lines = []
+    for c in cases:
+        o = impl[c]
+        f = dict(x.split("=", 1) for x in o.split(" ")[1:] if "=" in x)
+        counts = [str(sum(1 for e in seg.split(",") if e.startswith("s"))) for seg in f.get("err", "").split("|")] if "err" in f else ["0"]
+        lines.append(f"RC\t{c.split(' ', 1)[1]}\t{','.join(counts)}")
+    (d / "cases.txt").write_text("\n".join(lines) + "\n"); (d / "impl.txt").write_text("\n".join(impl[c] for c in cases) + "\n")
+    ok, err = core.run_driver(["reconf"], d / "cases.txt", d / "model.txt")
+    if not ok: s.error = "wxdriver reconf failed: " + err[-600:]; return s
+    model = core.read_lines(d / "model.txt")
+    s.evaluations = len(cases)
+    for i, (c, mo) in enumerate(zip(cases, model)):
+        o = impl[c]
+        if o.endswith(" HUNG"):
+            s.oracle_failures.append((i, c, o, "deadlock: the instance stopped answering after a handler reconfigured it from inside its own invocation (the case did not finish within 6 s)"))
+            s.disagreements.append((i, c, o, mo)); continue
+        f = dict(x.split("=", 1) for x in o.split(" ")[1:])
+        im = f"act={f['act']} err={f['err']} cfg={f['cfg']}"
+        if im != mo: s.disagreements.append((i, c, o, mo))
+        ops = c.split(" ", 1)[1].split(";")
+        what = None
+        segops = [x for x in ops if x.split(":")[0] in ("ev", "set")]
+        for op, seg in zip(segops, f["act"].split("|")):
+            es = [e for e in seg.split(",") if e]
+            if what: break
+            if op.startswith("ev:") and len(es) != 2: what = f"one event, but the action handler log of `{op}` is {es or 'empty'}: the invocation did not run exactly once to its end"
+            elif len(es) == 2 and es[0][1:] != es[1][1:]: what = f"the invocation that started as handler generation {es[0][1:]} ended as generation {es[1][1:]}"
+        # paths never named by a `bad:` op behave as in a fault-free run; the others are left to the fs-worker stream (a path that starts
+        # failing AFTER it was registered stays registered, one that stopped failing is registered at the next change only)
+        everbad = {x.split(":")[1] for x in ops if x.startswith("bad:")}
+        conf = [x for x in f["cfg"].split("|")[0].split(",") if x]
+        reg = [x for x in f["reg"].split(",") if x not in ("none", "empty", "")]
+        must = sorted(x for x in conf if x[:-1] not in everbad)
+        if not what and not (set(must) <= set(reg) <= set(conf)):
+            what = f"configured {conf or 'nothing'} (faults were injected on {sorted(everbad) or 'no path'} only) but registered {reg or f['reg']} once changes made from inside the handlers had stopped"
+        if not what and not conf and f["reg"] != "none": what = "the configured set is empty but the watcher was not released"
+        if not what and f.get("main") != "running": what = f"the main task ended ({f.get('main')}) after a handler reconfigured the instance"
+        if what: s.oracle_failures.append((i, c, o, what))
+        s.bump("faulty paths" if any(x.startswith("bad:") for x in ops) else "no faults")
+        for a in "PKAET": s.bump(f"in-handler {a}", sum(1 for x in ops if x[:3] in ("ev:", "eh:") and a in [y[:1] for y in x[3:].split("|")]))
+        if "A" in c or "E" in c: s.nontrivial.add(hashlib.md5((c.split(" ", 1)[1] + o).encode()).digest()[:8])
+        if i % max(1, len(cases) // 3) == 0 and len(s.samples) < 3: s.samples.append({"case": c, "impl": o, "model": mo})
+    s.note = ("a real Watchexec instance (main(), action worker, error hook, fs worker with the recording watcher of hook H2); the action and error handlers change the path set, "
+              "the watcher kind, the throttle and replace THEMSELVES from inside their own invocation; vs the handler-cell model Rc (generation per invocation, configured set); "
+              "oracle: every invocation ends (6 s watchdog), as the generation it started as; registered = configured minus failing paths once quiet; the number of errors per step is an input of the model")
+    return s
+
 PLANS["C13"] = dict(
-    modules=["Wx.Fs.C13", "Wx.Fs.C13f"],
-    theorems=["Fw.iteration_faults", "Fw.empty_set_releases", "Fw.others_are_registered", "Fw.errors_once_per_attempt", "Fw.failing_path_stays_out", "Fw.dropFold_errs", "Fw.c13_converges", "Fw.J_runWorker", "Fw.J_iteration", "Fw.J_applyCfg", "Fw.J_addHook", "Fw.J_init", "Fw.iteration_core", "Fw.f8a_witness", "Fw.f8b_witness"],
-    bins=[("lib", ["wxfs"])],
-    streams=c13_streams,
+    modules=["Wx.Fs.C13", "Wx.Fs.C13f", "Wx.Fs.Reconf"],
+    theorems=["Rc.invocation_keeps_its_generation", "Rc.replacement_is_for_the_next_invocation", "Rc.handler_changes_are_configured", "Fw.iteration_faults", "Fw.empty_set_releases", "Fw.others_are_registered", "Fw.errors_once_per_attempt", "Fw.failing_path_stays_out", "Fw.dropFold_errs", "Fw.c13_converges", "Fw.J_runWorker", "Fw.J_iteration", "Fw.J_applyCfg", "Fw.J_addHook", "Fw.J_init", "Fw.iteration_core", "Fw.f8a_witness", "Fw.f8b_witness"],
+    bins=[("lib", ["wxfs", "wxreconf"])],
+    streams=lambda ctx: c13_streams(ctx) + [c13_reconf(ctx)],
     sources=["crates/lib/src/sources/fs.rs", "crates/lib/src/config.rs", "crates/lib/src/changeable.rs"],
     rule="a case is one script of configuration changes; non-trivial = a watcher is created and something is unregistered or released; distinct by (script body, observation)",
-    assumptions=["tokio Notify::notify_waiters wakes only an armed Notified (modelled); the recording watcher stands in for the notify back-ends (hook H2)",
+    assumptions=["handler cells (ChangeableFn): a call runs the handler that was in the cell when the call started, a replacement is visible to the next call; the model Rc is total, so a call that never returns (a handler blocked on its own cell) shows as a missing answer; races between a replacement made by the action handler and one made concurrently by the error handler are not generated",
+                 "tokio Notify::notify_waiters wakes only an armed Notified (modelled); the recording watcher stands in for the notify back-ends (hook H2)",
                  "HashSet iteration order inside the worker is not modelled: call logs are compared sorted, and failing unwatch is not combined with mode flips in generated scripts"],
     partial="convergence is proved for the fault-free case; with failing registrations one iteration is characterised exactly (iteration_faults: every non-failing configured path registered, failing new ones left out and retried, one error per failing attempt); failing UNWATCH calls are tied by correspondence only; the number of worker iterations is not bounded by a theorem",
 )
